@@ -26,12 +26,12 @@ def dispatch (typ : Nat) (m : Msg) : M Reply :=
   | 12 => hTlopen m
   | 14 => hCreate m 4294967295 15                            -- Tlcreate: NoUID
   | 128 => hCreate m (m.int 5) 129                           -- Tucreate
-  | 16 => hDirOp m 0 1 "Symlink" [4294967295, m.int 3] [m.str 2, m.str 1] 17
-  | 134 => hDirOp m 0 1 "Symlink" [m.int 4, m.int 3] [m.str 2, m.str 1] 135
-  | 72 => hDirOp m 0 1 "Mkdir" [m.int 2, 4294967295, m.int 3] [m.str 1] 73
-  | 130 => hDirOp m 0 1 "Mkdir" [m.int 2, m.int 4, m.int 3] [m.str 1] 131
-  | 18 => hDirOp m 0 1 "Mknod" [m.int 2, m.int 3, m.int 4, 4294967295, m.int 5] [m.str 1] 19
-  | 132 => hDirOp m 0 1 "Mknod" [m.int 2, m.int 3, m.int 4, m.int 6, m.int 5] [m.str 1] 133
+  | 16 => hDirOp m 0 1 "Symlink" [4294967295, m.int 3] [m.str 2] 17
+  | 134 => hDirOp m 0 1 "Symlink" [m.int 4, m.int 3] [m.str 2] 135
+  | 72 => hDirOp m 0 1 "Mkdir" [m.int 2, 4294967295, m.int 3] [] 73
+  | 130 => hDirOp m 0 1 "Mkdir" [m.int 2, m.int 4, m.int 3] [] 131
+  | 18 => hDirOp m 0 1 "Mknod" [m.int 2, m.int 3, m.int 4, 4294967295, m.int 5] [] 19
+  | 132 => hDirOp m 0 1 "Mknod" [m.int 2, m.int 3, m.int 4, m.int 6, m.int 5] [] 133
   | 70 => hTlink m
   | 74 => hTrenameat m
   | 76 => hTunlinkat m
@@ -74,8 +74,7 @@ def stop (s : State) (conn : Nat) : State × List Call :=
   let mine := s.fids.filter (·.1.1 == conn)
   let body : M Unit := do
     modS fun s => { s with fids := s.fids.filter (·.1.1 != conn) }
-    for (_, r) in mine do
-      decRefU r
+    forEach mine fun e => decRefU e.2
   match body { st := s, tape := [], conn := conn } with
   | .ok _ c => (c.st, c.calls.reverse)
   | .panic c => (c.st, c.calls.reverse)
